@@ -217,7 +217,15 @@ def history(env, rng, res, hn):
             m.apply(db, argv)
             c.cmd(*argv)
             hist.append(b" ".join(argv)[:120])
+        rewrite_at = rng.randrange(nsteps) if rng.random() < 0.3 else -1
         for step in range(nsteps):
+            if step == rewrite_at:
+                # a log rewrite in the middle: what is written afterwards belongs in the file that replaces it
+                c.cmd("BGREWRITEAOF")
+                time.sleep(0.05)
+                hist.append(b"BGREWRITEAOF")
+                paths_used.add("bgrewriteaof")
+                res.cell("bgrewriteaof", "mid-history")
             path = scenario if scenario not in ("mixed", "multi-db") else rng.choice(["direct", "direct", "multi", "script", "blocking"])
             if scenario == "multi-db" and rng.random() < 0.2:
                 db = rng.choice([0, 1, 2, 15])
@@ -274,7 +282,9 @@ def history(env, rng, res, hn):
                     if not loaded:
                         c.cmd(b"SCRIPT", b"LOAD", SCRIPT)
                         loaded = True
-                    c.cmd(b"EVALSHA", SHA, b"0", *a)
+                    # the digest in the spelling a client may use (servers that accept upper case must log it too)
+                    sha = SHA if rng.random() < 0.7 else (SHA.upper() if rng.random() < 0.6 else SHA[:20].upper() + SHA[20:])
+                    c.cmd(b"EVALSHA", sha, b"0", *a)
                     hist.append(b"[evalsha] " + b" ".join(a)[:110])
                     res.cell("evalsha", a[0].upper().decode("latin1"))
                     paths_used.add("evalsha")
@@ -294,7 +304,15 @@ def history(env, rng, res, hn):
                         raise RuntimeError("select")
                     other.send(op, key, b"0")
                     server.wait_loops(c, 4)
-                    c.cmd("RPUSH", key, b"served-%d" % step, b"stays-%d" % step)
+                    if rng.random() < 0.4:
+                        # the serving push travels in one write with traffic for ANOTHER database: the pop done
+                        # for the waiter is logged after it and must still carry its own database
+                        odb = rng.choice([x for x in (0, 1, 2, 15) if x != db])
+                        c.pipeline([[b"RPUSH", key, b"served-%d" % step, b"stays-%d" % step], [b"SELECT", b"%d" % odb],
+                                    [b"SET", b"other-db-traffic", b"%d" % step], [b"SELECT", b"%d" % db]])
+                        paths_used.add("blocking-served-with-other-db-traffic")
+                    else:
+                        c.cmd("RPUSH", key, b"served-%d" % step, b"stays-%d" % step)
                     try:
                         got = other.recv(timeout=10)
                     except Timeout:
